@@ -6,6 +6,406 @@ import Sqroot.Model.PosHeap
 namespace Sqroot.Proofs
 open Sqroot.Model
 
+/-! ### helper lemmas: well-formed slices, frame (`Same`) and ownership (`Fresh`) invariants,
+simulation relation (`Rel`) -/
+namespace PH
+
+theorem getD_modify_ne {l : List (List PRange)} {a i : Nat} (f : List PRange → List PRange) (h : i ≠ a) :
+    (l.modify a f).getD i [] = l.getD i [] := by
+  have h' : ¬ a = i := fun h' => h h'.symm
+  simp [h']
+
+theorem getD_modify_eq {l : List (List PRange)} {a : Nat} (f : List PRange → List PRange)
+    (h : a < l.length) : (l.modify a f).getD a [] = f (l.getD a []) := by
+  simp [h]
+
+theorem getD_append_lt {l : List (List PRange)} {c : List PRange} {i : Nat} (h : i < l.length) :
+    (l ++ [c]).getD i [] = l.getD i [] := by
+  simp [List.getElem?_append_left h]
+
+theorem getD_append_eq {l : List (List PRange)} {c : List PRange} :
+    (l ++ [c]).getD l.length [] = c := by
+  simp
+
+theorem take_set_succ {α} (l : List α) (k : Nat) (x : α) (h : k < l.length) :
+    (l.set k x).take (k + 1) = l.take k ++ [x] := by
+  induction l generalizing k with
+  | nil => simp at h
+  | cons y ys ih =>
+    cases k with
+    | zero => simp
+    | succ k => simp at h; simp [ih k h]
+
+theorem take_set_last {α} (l : List α) (n : Nat) (x : α) (h0 : 0 < n) (h : n ≤ l.length) :
+    (l.set (n - 1) x).take n = (l.take n).dropLast ++ [x] := by
+  obtain ⟨k, rfl⟩ : ∃ k, n = k + 1 := ⟨n - 1, by omega⟩
+  simp only [Nat.add_sub_cancel]
+  rw [take_set_succ l k x (by omega), List.dropLast_eq_take, List.length_take, List.take_take]
+  congr 2
+  omega
+
+def WF (h : PHeap) (s : SliceH) : Prop :=
+  ∀ a, s.arr = some a → a < h.arrays.length ∧ s.len ≤ s.cap ∧ (h.arrays.getD a []).length = s.cap
+
+def Fresh (n : Nat) (h : PHeap) (s : SliceH) : Prop :=
+  n ≤ h.arrays.length ∧ WF h s ∧ ∀ a, s.arr = some a → n ≤ a
+
+def Same (n : Nat) (h h' : PHeap) : Prop :=
+  ∀ i, i < n → h'.arrays.getD i [] = h.arrays.getD i []
+
+theorem Same.refl (n : Nat) (h : PHeap) : Same n h h := fun _ _ => rfl
+
+theorem Same.trans {n : Nat} {h1 h2 h3 : PHeap} (a : Same n h1 h2) (b : Same n h2 h3) : Same n h1 h3 :=
+  fun i hi => (b i hi).trans (a i hi)
+
+theorem fresh_zero {h : PHeap} {s : SliceH} (hw : WF h s) : Fresh 0 h s :=
+  ⟨Nat.zero_le _, hw, fun _ _ => Nat.zero_le _⟩
+
+theorem fresh_nil {n : Nat} {h : PHeap} (hn : n ≤ h.arrays.length) : Fresh n h nilSlice :=
+  ⟨hn, fun a ha => by simp [nilSlice] at ha, fun a ha => by simp [nilSlice] at ha⟩
+
+theorem read_same {n : Nat} {h h' : PHeap} (hs : Same n h h') {t : SliceH} {a : Nat}
+    (ht : t.arr = some a) (ha : a < n) : h'.read t = h.read t := by
+  simp only [PHeap.read, ht, hs a ha]
+
+theorem writeAt_fresh {n : Nat} {h : PHeap} {s : SliceH} {a : Nat} (i : Nat) (x : PRange)
+    (hf : Fresh n h s) (ha : s.arr = some a) (s' : SliceH) (h1 : s'.arr = s.arr) (h2 : s'.cap = s.cap)
+    (h3 : s'.len ≤ s'.cap) :
+    Fresh n (h.writeAt a i x) s' ∧ Same n h (h.writeAt a i x) := by
+  obtain ⟨hn, hw, hge⟩ := hf
+  obtain ⟨hal, hlc, hcap⟩ := hw a ha
+  refine ⟨⟨?_, ?_, ?_⟩, ?_⟩
+  · simpa [PHeap.writeAt] using hn
+  · intro a' ha'
+    rw [h1, ha] at ha'
+    cases ha'
+    refine ⟨by simpa [PHeap.writeAt] using hal, h3, ?_⟩
+    simp only [PHeap.writeAt]
+    rw [getD_modify_eq _ hal, List.length_set, hcap, h2]
+  · intro a' ha'
+    rw [h1] at ha'
+    exact hge a' ha'
+  · intro j hj
+    have : j ≠ a := by have := hge a ha; omega
+    simp only [PHeap.writeAt]
+    exact getD_modify_ne _ this
+
+
+theorem append_fresh {n : Nat} {h : PHeap} {s : SliceH} (hf : Fresh n h s) (x : PRange) :
+    Fresh n (h.append s x).1 (h.append s x).2 ∧ Same n h (h.append s x).1 := by
+  unfold PHeap.append
+  cases hs : s.arr with
+  | none =>
+    obtain ⟨hn, -, -⟩ := hf
+    refine ⟨⟨by simp; omega, ?_, ?_⟩, ?_⟩
+    · intro a ha
+      simp at ha
+      subst ha
+      simp
+    · intro a ha
+      simp at ha
+      omega
+    · intro i hi
+      exact getD_append_lt (by omega)
+  | some a =>
+    simp only []
+    split
+    · exact writeAt_fresh _ _ hf hs _ hs.symm rfl (by simp; omega)
+    · rename_i hlt
+      obtain ⟨hn, hw, hge⟩ := hf
+      obtain ⟨hal, hlc, hcap⟩ := hw a hs
+      rw [List.getD_eq_getElem?_getD] at hcap
+      refine ⟨⟨by simp; omega, ?_, ?_⟩, ?_⟩
+      · intro a' ha'
+        simp at ha'
+        subst ha'
+        simp [PHeap.read, hs]
+        omega
+      · intro a' ha'
+        simp at ha'
+        omega
+      · intro i hi
+        exact getD_append_lt (by omega)
+
+theorem read_append {h : PHeap} {s : SliceH} (hw : WF h s) (x : PRange) :
+    (h.append s x).1.read (h.append s x).2 = h.read s ++ [x] := by
+  unfold PHeap.append
+  cases hs : s.arr with
+  | none => simp [PHeap.read, hs]
+  | some a =>
+    obtain ⟨hal, hlc, hcap⟩ := hw a hs
+    simp only []
+    split
+    · rename_i hlt
+      simp only [PHeap.read, hs, PHeap.writeAt]
+      rw [getD_modify_eq _ hal, take_set_succ _ _ _ (by omega)]
+    · rw [List.getD_eq_getElem?_getD] at hcap
+      have hl : (List.take s.len (h.arrays[a]?.getD [])).length = s.len := by
+        simp; omega
+      simp only [PHeap.read, hs, List.getD_eq_getElem?_getD, List.getElem?_concat_length, Option.getD_some]
+      rw [List.take_append_of_le_length (by simp; omega)]
+      exact List.take_of_length_le (by simp; omega)
+
+theorem hanb_fresh {n : Nat} {h : PHeap} {s : SliceH} (hf : Fresh n h s) (item : PRange) :
+    Fresh n (hAppendNotBefore h s item).1 (hAppendNotBefore h s item).2 ∧
+      Same n h (hAppendNotBefore h s item).1 := by
+  unfold hAppendNotBefore
+  split
+  · rename_i last a hl ha
+    split
+    · split
+      · exact writeAt_fresh _ _ hf ha s rfl rfl (hf.2.1 a ha).2.1
+      · exact ⟨hf, Same.refl _ _⟩
+    · exact append_fresh hf item
+  · exact ⟨hf, Same.refl _ _⟩
+
+theorem hanb_refines {h : PHeap} {s : SliceH} (hw : WF h s) (item : PRange) (rs' : List PRange)
+    (hok : appendNotBefore item (h.read s) = .ok rs') :
+    (hAppendNotBefore h s item).1.read (hAppendNotBefore h s item).2 = rs' := by
+  unfold appendNotBefore at hok
+  unfold hAppendNotBefore
+  cases hl : (h.read s).getLast? with
+  | none => rw [hl] at hok; simp at hok
+  | some last =>
+    rw [hl] at hok
+    cases hs : s.arr with
+    | none => simp [PHeap.read, hs] at hl
+    | some a =>
+      obtain ⟨hal, hlc, hcap⟩ := hw a hs
+      simp only []
+      simp only [] at hok
+      split
+      · rename_i h1
+        rw [if_pos h1] at hok
+        split
+        · rename_i h2
+          rw [if_pos h2] at hok
+          cases hok
+          have hne : h.read s ≠ [] := by intro e; simp [e] at hl
+          simp only [PHeap.read, hs] at hne ⊢
+          simp only [PHeap.writeAt]
+          rw [getD_modify_eq _ hal]
+          apply take_set_last
+          · cases hlen : s.len with
+            | zero => simp [hlen] at hne
+            | succ k => omega
+          · omega
+        · rename_i h2
+          rw [if_neg h2] at hok
+          cases hok
+          rfl
+      · rename_i h1
+        rw [if_neg h1] at hok
+        cases hok
+        exact read_append hw item
+
+theorem addRange_fresh {n : Nat} {h : PHeap} {b : HBuilder} (hf : Fresh n h b.ranges) (s e : Int) :
+    Fresh n (b.addRange h s e).1 (b.addRange h s e).2.ranges ∧ Same n h (b.addRange h s e).1 := by
+  unfold HBuilder.addRange
+  simp only []
+  generalize (if s < 0 then 0 else s) = st
+  split
+  · exact ⟨hf, Same.refl _ _⟩
+  · split
+    · exact append_fresh hf _
+    · split
+      · exact append_fresh hf _
+      · exact hanb_fresh hf _
+
+theorem fold_fresh {n : Nat} (rest : List PRange) : ∀ (p : PHeap × SliceH), Fresh n p.1 p.2 →
+    Fresh n (rest.foldl (fun (acc : PHeap × SliceH) r => hAppendNotBefore acc.1 acc.2 r) p).1
+      (rest.foldl (fun (acc : PHeap × SliceH) r => hAppendNotBefore acc.1 acc.2 r) p).2 ∧
+    Same n p.1 (rest.foldl (fun (acc : PHeap × SliceH) r => hAppendNotBefore acc.1 acc.2 r) p).1 := by
+  induction rest with
+  | nil => intro p hp; exact ⟨hp, Same.refl _ _⟩
+  | cons r rest ih =>
+    intro p hp
+    simp only [List.foldl_cons]
+    have h1 := hanb_fresh hp r
+    have h2 := ih _ h1.1
+    exact ⟨h2.1, h1.2.trans h2.2⟩
+
+/-- `Build`: the reset builder is fresh, old arrays are untouched, the result header is well-formed -/
+theorem build_fresh {n : Nat} {h : PHeap} {b : HBuilder} (hf : Fresh n h b.ranges) :
+    Fresh n (b.build h).1 (b.build h).2.2.ranges ∧ Same n h (b.build h).1 ∧
+      WF (b.build h).1 (b.build h).2.1 ∧ (b.build h).2.2.ranges = nilSlice := by
+  unfold HBuilder.build
+  split
+  · exact ⟨fresh_nil hf.1, Same.refl _ _, hf.2.1, rfl⟩
+  · split
+    · exact ⟨fresh_nil hf.1, Same.refl _ _, (fresh_nil (Nat.zero_le _)).2.1, rfl⟩
+    · rename_i a ha
+      simp only []
+      have hge := hf.2.2 a ha
+      have hS : Same n h ⟨h.arrays.modify a (fun arr => sortByStart (h.read b.ranges) ++ arr.drop b.ranges.len)⟩ := by
+        intro i hi
+        exact getD_modify_ne _ (by omega)
+      have hL : n ≤ (⟨h.arrays.modify a (fun arr => sortByStart (h.read b.ranges) ++ arr.drop b.ranges.len)⟩ : PHeap).arrays.length := by
+        simp; exact hf.1
+      split
+      · exact ⟨fresh_nil hL, hS, (fresh_nil (Nat.zero_le _)).2.1, rfl⟩
+      · rename_i r0 rest hsorted
+        have h2 := append_fresh (fresh_nil hL) r0
+        have h3 := fold_fresh rest _ h2.1
+        have h2' := append_fresh (fresh_nil (Nat.zero_le _ : 0 ≤ (⟨h.arrays.modify a (fun arr => sortByStart (h.read b.ranges) ++ arr.drop b.ranges.len)⟩ : PHeap).arrays.length)) r0
+        have h3' := fold_fresh rest _ h2'.1
+        exact ⟨fresh_nil h3.1.1, hS.trans (h2.2.trans h3.2), h3'.1.2.1, rfl⟩
+
+theorem run_fresh {n : Nat} (cs : List HCall) : ∀ (h : PHeap) (b : HBuilder) (acc : List SliceH),
+    Fresh n h b.ranges →
+    Fresh n (runHCalls cs h b acc).1 (runHCalls cs h b acc).2.1.ranges ∧
+      Same n h (runHCalls cs h b acc).1 := by
+  induction cs with
+  | nil => intro h b acc hf; exact ⟨hf, Same.refl _ _⟩
+  | cons c cs ih =>
+    intro h b acc hf
+    cases c with
+    | add p =>
+      simp only [runHCalls]
+      have h1 := addRange_fresh hf p (wrap64 (p + 1))
+      have h2 := ih _ _ acc h1.1
+      exact ⟨h2.1, h1.2.trans h2.2⟩
+    | addRange s e =>
+      simp only [runHCalls]
+      have h1 := addRange_fresh hf s e
+      have h2 := ih _ _ acc h1.1
+      exact ⟨h2.1, h1.2.trans h2.2⟩
+    | build =>
+      simp only [runHCalls]
+      have h1 := build_fresh hf
+      have h2 := ih _ _ (acc ++ [(b.build h).2.1]) h1.1
+      exact ⟨h2.1, h1.2.1.trans h2.2⟩
+
+def Rel (h : PHeap) (hb : HBuilder) (b : Builder) : Prop :=
+  h.read hb.ranges = b.ranges ∧ hb.unsorted = b.unsorted ∧ WF h hb.ranges
+
+theorem addRange_refines {h : PHeap} {hb : HBuilder} {b : Builder} (hr : Rel h hb b) (s e : Int)
+    (b' : Builder) (hok : b.addRange s e = .ok b') :
+    Rel (hb.addRange h s e).1 (hb.addRange h s e).2 b' := by
+  obtain ⟨hread, huns, hw⟩ := hr
+  unfold Builder.addRange at hok
+  unfold HBuilder.addRange
+  simp only [] at hok ⊢
+  generalize (if s < 0 then 0 else s) = st at hok ⊢
+  rw [hread]
+  split
+  · rename_i h1
+    rw [if_pos h1] at hok
+    cases hok
+    exact ⟨hread, huns, hw⟩
+  · rename_i h1
+    rw [if_neg h1] at hok
+    cases hl : b.ranges.getLast? with
+    | none =>
+      rw [hl] at hok
+      simp only [] at hok ⊢
+      cases hok
+      exact ⟨by rw [read_append hw, hread], huns, (append_fresh (fresh_zero hw) _).1.2.1⟩
+    | some last =>
+      rw [hl] at hok
+      simp only [] at hok ⊢
+      split
+      · rename_i h2
+        rw [if_pos h2] at hok
+        cases hok
+        exact ⟨by rw [read_append hw, hread], rfl, (append_fresh (fresh_zero hw) _).1.2.1⟩
+      · rename_i h2
+        rw [if_neg h2] at hok
+        cases hq : appendNotBefore ⟨st, e⟩ b.ranges with
+        | error err => rw [hq] at hok; cases hok
+        | ok rs' =>
+          rw [hq] at hok
+          cases hok
+          rw [← hread] at hq
+          exact ⟨hanb_refines hw _ _ hq, huns, (hanb_fresh (fresh_zero hw) _).1.2.1⟩
+
+theorem fold_refines (rest : List PRange) : ∀ (p : PHeap × SliceH) (acc res : List PRange),
+    WF p.1 p.2 → p.1.read p.2 = acc →
+    rest.foldlM (fun acc r => appendNotBefore r acc) acc = .ok res →
+    (rest.foldl (fun (acc : PHeap × SliceH) r => hAppendNotBefore acc.1 acc.2 r) p).1.read
+      (rest.foldl (fun (acc : PHeap × SliceH) r => hAppendNotBefore acc.1 acc.2 r) p).2 = res := by
+  induction rest with
+  | nil =>
+    intro p acc res hw hread hok
+    cases hok
+    exact hread
+  | cons r rest ih =>
+    intro p acc res hw hread hok
+    rw [List.foldlM_cons] at hok
+    simp only [List.foldl_cons]
+    cases hq : appendNotBefore r acc with
+    | error err => rw [hq] at hok; cases hok
+    | ok acc' =>
+      rw [hq] at hok
+      rw [← hread] at hq
+      exact ih _ acc' res (hanb_fresh (fresh_zero hw) _).1.2.1 (hanb_refines hw _ _ hq) hok
+
+theorem build_refines {h : PHeap} {hb : HBuilder} {b : Builder} (hr : Rel h hb b)
+    (res : List PRange) (b' : Builder) (hok : b.build = .ok (res, b')) :
+    (hb.build h).1.read (hb.build h).2.1 = res := by
+  obtain ⟨hread, huns, hw⟩ := hr
+  unfold Builder.build Builder.buildWith at hok
+  unfold HBuilder.build
+  rw [huns]
+  cases hu : b.unsorted with
+  | false =>
+    rw [hu] at hok
+    simp at hok ⊢
+    rw [hread]; exact hok.1
+  | true =>
+    rw [hu] at hok
+    simp only [Bool.not_true, Bool.false_eq_true, if_false] at hok ⊢
+    cases ha : hb.ranges.arr with
+    | none =>
+      have : b.ranges = [] := by rw [← hread]; simp [PHeap.read, ha]
+      rw [this] at hok
+      simp [sortByStart, mergeSorted] at hok
+      cases hok
+    | some a =>
+      simp only []
+      rw [hread]
+      generalize sortByStart b.ranges = sorted at hok ⊢
+      cases sorted with
+      | nil => simp [mergeSorted] at hok; cases hok
+      | cons r0 rest =>
+        simp only [mergeSorted] at hok ⊢
+        cases hq : rest.foldlM (fun acc r => appendNotBefore r acc) [r0] with
+        | error err => rw [hq] at hok; cases hok
+        | ok res' =>
+          rw [hq] at hok
+          cases hok
+          apply fold_refines rest _ [r0] _ _ _ hq
+          · exact (append_fresh (fresh_nil (Nat.zero_le _)) r0).1.2.1
+          · rw [read_append (fresh_nil (Nat.zero_le _)).2.1]; rfl
+
+theorem run_refines (f : BCall → HCall) (hadd : ∀ p, f (.add p) = HCall.add p)
+    (haddr : ∀ s e, f (.addRange s e) = HCall.addRange s e) (cs : List BCall) :
+    ∀ (h : PHeap) (hb : HBuilder) (b0 b : Builder) (acc : List SliceH), Rel h hb b0 →
+    b0.calls cs = .ok b →
+    Rel (runHCalls (cs.map f) h hb acc).1 (runHCalls (cs.map f) h hb acc).2.1 b := by
+  induction cs with
+  | nil =>
+    intro h hb b0 b acc hr hok
+    cases hok
+    exact hr
+  | cons c cs ih =>
+    intro h hb b0 b acc hr hok
+    unfold Builder.calls at hok
+    rw [List.foldlM_cons] at hok
+    cases hq : b0.call c with
+    | error err => rw [hq] at hok; cases hok
+    | ok b1 =>
+      rw [hq] at hok
+      cases c with
+      | add p =>
+        simp only [List.map_cons, hadd, runHCalls]
+        exact ih _ _ b1 b acc (addRange_refines hr _ _ _ hq) hok
+      | addRange s e =>
+        simp only [List.map_cons, haddr, runHCalls]
+        exact ih _ _ b1 b acc (addRange_refines hr _ _ _ hq) hok
+
+end PH
+
 /-- Isolation: whatever script precedes a `Build` and whatever script follows it on the SAME
 builder, the Positions value handed out by that `Build` reads the same afterwards. -/
 theorem build_isolated (pre post : List HCall) :
@@ -13,7 +413,17 @@ theorem build_isolated (pre post : List HCall) :
     let built := r1.2.1.build r1.1
     let r2 := runHCalls post built.1 built.2.2 []
     r2.1.read built.2.1 = built.1.read built.2.1 := by
-  sorry
+  intro r1 built r2
+  have h0 : PH.Fresh 0 (⟨[]⟩ : PHeap) ({} : HBuilder).ranges := PH.fresh_nil (Nat.le_refl _)
+  have h1 := (PH.run_fresh pre ⟨[]⟩ {} [] h0).1
+  have hb := PH.build_fresh h1
+  cases ha : built.2.1.arr with
+  | none => simp [PHeap.read, ha]
+  | some a =>
+    have hlt := (hb.2.2.1 a ha).1
+    have hf : PH.Fresh built.1.arrays.length built.1 built.2.2.ranges := by
+      rw [hb.2.2.2]; exact PH.fresh_nil (Nat.le_refl _)
+    exact PH.read_same (PH.run_fresh post _ _ [] hf).2 ha hlt
 
 /-- the heap builder computes what the pure builder computes (so `build_normal_exact_union`
 applies to what is handed out) -/
@@ -22,6 +432,10 @@ theorem heap_build_refines (cs : List BCall) (b : Builder) (hb : ({} : Builder).
     let r := runHCalls hcs ⟨[]⟩ {} []
     r.1.read r.2.1.ranges = b.ranges ∧ r.2.1.unsorted = b.unsorted ∧
     (∀ res b', b.build = .ok (res, b') → (r.2.1.build r.1).1.read (r.2.1.build r.1).2.1 = res) := by
-  sorry
+  intro hcs r
+  have h0 : PH.Rel (⟨[]⟩ : PHeap) ({} : HBuilder) ({} : Builder) :=
+    ⟨rfl, rfl, (PH.fresh_nil (Nat.le_refl _)).2.1⟩
+  have hr := PH.run_refines (fun c => match c with | .add p => HCall.add p | .addRange s e => HCall.addRange s e) (fun _ => rfl) (fun _ _ => rfl) cs ⟨[]⟩ {} {} b [] h0 hb
+  exact ⟨hr.1, hr.2.1, fun res b' hok => PH.build_refines hr res b' hok⟩
 
 end Sqroot.Proofs
